@@ -1270,6 +1270,26 @@ fn post_op(op: Op, faulted: bool) {
             return;
         }
     }
+    // The configuration is per thread: what this thread reads back is what this thread set (defaults otherwise)
+    #[cfg(feature = "auto")]
+    if c.cfg.auto_lens {
+        let (ma, mb) = {
+            let m = c.model.borrow();
+            (m.auto, m.buf_thr)
+        };
+        match rust_cc::config::config(|cf| (cf.auto_collect(), cf.adjustment_percent(), cf.buffered_objects_threshold().map_or(0, |x| x.get()))) {
+            Ok((a, p, b)) => {
+                if a != ma || b != mb as usize || p != 0.1 {
+                    v!("C15", "P-policy", "configuration read back as (auto_collect {}, adjustment_percent {}, buffered threshold {}) but this thread set (auto_collect {}, adjustment_percent 0.1, buffered threshold {}): it was changed from elsewhere", a, p, b, ma, mb);
+                    return;
+                }
+            },
+            Err(e) => {
+                v!("C15", "P-policy", "configuration not accessible at top level: {:?}", e);
+                return;
+            },
+        }
+    }
     // F. introspection
     let ab = state::allocated_bytes().unwrap_or(usize::MAX);
     if ab != alloc::live_box_bytes() {
